@@ -38,6 +38,10 @@ CHECKS = {
    text="Coq theorems over ALL token sequences on the regenerated table: nothing after the offending token influences the error index or the callbacks before it; every token before the reported one had been shifted in source order; a premature end is reported at the end marker (no position). Lexical error positions follow from C05's scanner_stream (error at the START of the first unclassifiable lexeme, including unterminated strings, patterns and comments), instantiated by kernel-evaluated examples. PARTIAL: 'the prefix is viable and the reported token admits no continuation' is decided per explored case by an exact Earley oracle for the documented grammar (every single-token insertion/deletion/replacement/truncation at every position; stray/unterminated elements at every gap of texts), not by a Coq theorem.",
    note=TB + "Driver model as in C18; scanner model as in C05. The Earley oracle is Python.",
    tech="Coq proof (suffix independence, shifted-prefix) + exact Earley oracle per case"),
+ "C06": dict(cat="translation_validation",
+   text="Per explored grammar (textbook families, random grammars, operator grammars with random precedence tables), kernel-evaluated: the table dumped from Spec.LALRParsingTable is, entry for entry, the LALR(1) table of the dumped grammar and precedence levels according to the independent Coq definition (Cfg/Lalr.v), and passes the proved safety check (hence, by certified_table_is_sound, every accepted input of ANY length is a sentence with the callbacks in derivation order); when emerge rejects, the reference construction leaves exactly the reported entries unresolved (no silent resolution, no false rejection). Universal Coq theorems state the documented resolution rule as decision rules. Operator grammars additionally run random expressions on the table and compare with precedence climbing. Known finding D25 (dependency merges GOTO targets into superset states; wrong acceptance exhibited) is reported, not certified.",
+   note=TB + "The LALR(1) construction and resolution are the dependency's: validated per instance against an executable Coq reference definition (unproved), not modelled. Completeness for conflict-free tables is not proved (lr_complete missing).",
+   tech="translation validation: per-instance kernel check against a Coq LALR(1) reference + proved safety check; Coq decision-rule theorems"),
 }
 
 ORDER = sorted(CHECKS)
